@@ -300,7 +300,8 @@ def r3(R):
         for op in F2.ops(node):
             if op.kind == 'store' and path_is(op.path, ('self', '_start')):
                 st = 'set'
-        if node.kind == 'rel' and st == 'set':
+        if st == 'set' and any(d < 0 and tuple(l) == ('self', '_lock')
+                               for d, l in lock_ops(F2, node)):
             return 'released'
         for op in F2.ops(node):
             if (op.kind == 'call' and path_is(
